@@ -294,6 +294,48 @@ def run(ctx, model_available=True):
                     failures.append({"kind": "oracle", "sig": "C18:reconnect", "desc": f"connect / disconnect / connect / disconnect on one MQTTClient raised {type(e).__name__}: {e}", "case": {}})
             d.add(f"MQL {len(evs)} " + " ".join("E" if e[0] == "E" else f"M {enc_str(e[1])} {enc_bytes(e[2])}" for e in evs))
             exp.append(("l", evs, "".join((f"L {len(w[2:])}:{w[2:]}" if w.startswith("L ") else w) + "|" for w in want)))
+        # a read that is pending while another task disconnects and connects again (listen() in its
+        # own task during a reconnect) must see what the new connection receives; lines received
+        # but not read yet when the disconnect happens are still delivered, once
+        for j in range(ctx.budget(4, 24)):
+            dist["reads_across_reconnect"] = dist.get("reads_across_reconnect", 0) + 1
+            cl = mqtt_mod.MQTTClient("broker", 1883, in_prefix="gw-out", out_prefix="gw-in")
+            try:
+                loop.run_until_complete(cl.connect())
+                fake = FakeAioMqtt.instances[-1]
+                unread = [f"7;1;1;0;2;u{i}" for i in range(j % 3)]
+                for i, _ in enumerate(unread):
+                    fake.q.put_nowait(FakeMessage("gw-out/7/1/1/0/2", f"u{i}".encode()))
+                spin(loop, 6)
+                pending = None
+                if not unread:
+                    pending = loop.create_task(cl.read())
+                    spin(loop, 3)
+                loop.run_until_complete(cl.disconnect())
+                spin(loop, j % 2 * 3)
+                loop.run_until_complete(cl.connect())
+                fake2 = FakeAioMqtt.instances[-1]
+                fake2.q.put_nowait(FakeMessage("gw-out/8/2/1/0/2", b"after"))
+                spin(loop, 6)
+                got = []
+                for _ in range(len(unread) + 1):
+                    task = pending or loop.create_task(cl.read())
+                    pending = None
+                    spin(loop, 4)
+                    if not task.done():
+                        task.cancel()
+                        spin(loop, 2)
+                        got.append("HANG")
+                        break
+                    got.append(task.result() if task.exception() is None else type(task.exception()).__name__)
+                want = unread + ["8;2;1;0;2;after"]
+                if got != want:
+                    failures.append({"kind": "oracle", "sig": "C18:deaf" if "HANG" in got else "C18:fifo",
+                                     "desc": f"{'a read pending across' if not unread else str(len(unread)) + ' line(s) received but unread at'} disconnect + connect, then the broker delivers one message: reads give {got}, expected {want}",
+                                     "case": {"unread": unread}})
+                loop.run_until_complete(cl.disconnect())
+            except BaseException as e:  # noqa: BLE001
+                failures.append({"kind": "oracle", "sig": "C18:reconnect", "desc": f"reads across a reconnect of one MQTTClient raised {type(e).__name__}: {e}", "case": {}})
         # two transports side by side: what arrives for one is read from that one only
         for _ in range(ctx.budget(6, 40)):
             dist["two_client_runs"] = dist.get("two_client_runs", 0) + 1
